@@ -47,3 +47,73 @@ Proof.
   all: rewrite ?eqb_reflx; cbn.
   all: try (eexists; eexists; split; [reflexivity | split; [cbn; rewrite ?upd_same; reflexivity | repeat split; cbn; auto]]; fail).
 Qed.
+
+(* ---------------------------------------------------------------- environment steps keep [sim] *)
+
+Lemma same_sim_refl : forall x, same_sim x x.
+Proof. intros; repeat split. Qed.
+
+Lemma sim_same : forall dc dt c x x', same_sim x x' -> sim dc dt c x -> sim dc dt c x'.
+Proof.
+  intros dc dt c x x' [H1 [H2 [H3 [H4 H5]]]] [S1 [S2 [S3 [S4 S5]]]].
+  unfold sim. rewrite H1, H2, H3, H4, H5. repeat split; auto.
+Qed.
+
+Ltac destr H :=
+  repeat match type of H with
+         | context [match ?v with _ => _ end] => destruct v eqn:?; try discriminate H
+         end.
+
+Ltac upd_cases t :=
+  repeat match goal with
+         | |- context [upd _ ?u _ t] =>
+             let E := fresh "E" in
+             unfold upd at 1; destruct (Nat.eqb t u) eqn:E;
+             [apply Nat.eqb_eq in E; subst | ]
+         end.
+
+Lemma env_keeps_sim : forall t ev s s' x,
+  own t ev = false -> step_fn s ev = Some s' -> th s t = TTx x ->
+  exists x', th s' t = TTx x' /\ same_sim x x'.
+Proof.
+  intros t ev s s' x Hown H Hth.
+  destruct ev; cbn in Hown; unfold step_fn, on_thread in H; destr H; injection H as <-; cbn.
+  all: upd_cases t.
+  all: try (rewrite Nat.eqb_refl in Hown; discriminate Hown).
+  all: try (exists x; split; [assumption | apply same_sim_refl]).
+  all: try (match goal with H1 : th ?s0 ?u = _, H2 : th ?s0 ?u = _ |- _ => rewrite H1 in H2; try discriminate H2; injection H2 as ? end; subst).
+  all: try (eexists; split; [reflexivity | repeat split]).
+  all: match goal with H : tx_local _ ?y (Tick _) = Some _ |- _ =>
+         unfold tx_local in H; destruct (t_pc y) eqn:Ep; destruct (t_armed y) eqn:Ea; destruct (t_tick y) eqn:Et;
+         cbn in H; try discriminate H; injection H as <-; cbn; auto
+       end.
+Qed.
+
+(** WHOLE EXECUTIONS: any interleaving of steps of the linked transmitter programs with environment transitions is a run
+    of the LTS, and the simulation relation holds again at its end *)
+Theorem transmitter_execution_refines : forall dc dt t c s tr c2 s2,
+  texec dc dt t c s tr c2 s2 -> forall x, th s t = TTx x -> sim dc dt c x ->
+  run s tr = Some s2 /\ exists x2, th s2 t = TTx x2 /\ sim dc dt c2 x2.
+Proof.
+  intros dc dt t c s tr c2 s2 Hx. induction Hx; intros y Hy Hs.
+  - cbn. split; auto. exists y; auto.
+  - rewrite Hy in H. injection H as <-.
+    pose proof (transmitter_loop_refines _ _ _ _ _ _ _ _ _ _ _ _ H0 Hy Hs) as G. cbn in G. eauto.
+  - rewrite Hy in H. injection H as <-.
+    pose proof (transmitter_loop_refines _ _ _ _ _ _ _ _ _ _ _ _ H0 Hy Hs) as G. cbn in G.
+    destruct (G H1) as [s1 [x1 [Hs1 [Hx1 Hsim]]]]. rewrite H2 in Hs1. injection Hs1 as <-.
+    cbn. rewrite H2. eauto.
+  - destruct (env_keeps_sim _ _ _ _ _ H H0 Hy) as [x1 [Hx1 Hsame]].
+    cbn. rewrite H0. apply (IHHx x1 Hx1). eapply sim_same; eauto.
+Qed.
+
+Corollary transmitter_execution_reachable : forall cfg dc dt t c s tr c2 s2 x,
+  reachable cfg s -> texec dc dt t c s tr c2 s2 -> th s t = TTx x -> sim dc dt c x -> reachable cfg s2.
+Proof.
+  intros cfg dc dt t c s tr c2 s2 x Hr Hx Hth Hs.
+  destruct (transmitter_execution_refines _ _ _ _ _ _ _ _ Hx _ Hth Hs) as [Hrun _].
+  clear - Hr Hrun. revert s Hr Hrun. induction tr as [|e tr IH]; intros s Hr Hrun; cbn in Hrun.
+  - now injection Hrun as <-.
+  - destruct (step_fn s e) eqn:E; try discriminate. apply (IH s0); auto. econstructor; eauto.
+Qed.
+
